@@ -171,6 +171,16 @@ def r10_2(ctx):
         for fn, store in users:
             tgt = [t for t in store.targets if isinstance(t, ast.Subscript)][0]
             keyvars = names_in(tgt.slice)
+            # every access of the table in this function must use the same key
+            keys = {ast.dump(tgt.slice)}
+            for n in ast.walk(fn.node):
+                if isinstance(n, ast.Subscript) and U(n.value) == f"{cls}.{name}":
+                    keys.add(ast.dump(n.slice))
+                if isinstance(n, ast.Compare) and any(isinstance(o, (ast.In, ast.NotIn)) for o in n.ops) \
+                        and U(n.comparators[0]) == f"{cls}.{name}":
+                    keys.add(ast.dump(n.left))
+            if len(keys) > 1:
+                out.bad(fn.qname, "memo table is tested / read / written under different keys", where=fn.where(store))
             params = set(fn.params)
             # data dependence of the stored value inside the function (flow-insensitive closure over local defs)
             defs = {}
@@ -275,7 +285,10 @@ def _mutations_of(fn, names):
         if isinstance(n, (ast.Assign, ast.AugAssign)):
             tgts = n.targets if isinstance(n, ast.Assign) else [n.target]
             for t in tgts:
-                if isinstance(t, ast.Subscript) and isinstance(t.value, ast.Name) and t.value.id in names:
+                base = t
+                while isinstance(base, ast.Subscript):
+                    base = base.value
+                if isinstance(t, ast.Subscript) and isinstance(base, ast.Name) and base.id in names:
                     bad.append((fn.qname, fn.where(n), U(n)[:60]))
                 if isinstance(n, ast.AugAssign) and isinstance(t, ast.Name) and t.id in names:
                     bad.append((fn.qname, fn.where(n), U(n)[:60]))
